@@ -184,8 +184,15 @@ int __wrap_dup(int fd) {
     return r;
 }
 
+/* the file mode creation mask is process-wide: calls that change it are counted, and the mask in force while the library
+ * is inside mkstemp is recorded (a file another thread creates at that moment is created under it) */
+mode_t __real_umask(mode_t m);
+int shim_umask_calls, shim_mkstemp_calls; int shim_umask_in_mkstemp = -1;
+mode_t __wrap_umask(mode_t m) { __atomic_add_fetch(&shim_umask_calls, 1, __ATOMIC_RELAXED); return __real_umask(m); }
 int __wrap_mkstemp(char *t) {
+    __atomic_add_fetch(&shim_mkstemp_calls, 1, __ATOMIC_RELAXED);
     if(shim_disabled) return __real_mkstemp(t);
+    { mode_t cur = __real_umask(0); __real_umask(cur); shim_umask_in_mkstemp = (int)cur; }
     int fd = __real_mkstemp(t);
     temp_fd = fd;
     if(fd >= 0 && fd < MAXFD) lib_owned[fd] = 1;
